@@ -273,12 +273,23 @@ def forwardref_obligations(chk):
         return uw.call_uf(I, path, "ForwardRef", a, k, may_raise=False, result_cls=cls_const(typing.ForwardRef))
     I.builtin_models[typing.ForwardRef] = fr
 
+    st = {"cur": None}
+    I.hooks["setattr"] = lambda I, path, obj, attr, v: st["cur"]["sets"].append((obj, attr, v))
+
     def mk(I, path):
         cls_const(str)
         ref = path.fresh("ref")
-        return [SV(ref)], {"module": SV(path.fresh("module"))}, {"ref": ref}
+        st["cur"] = {"ref": ref, "sets": []}
+        return [SV(ref)], {"module": SV(path.fresh("module"))}, st["cur"]
     for pi, (path, out, obls, writes, cur) in enumerate(I.run_function(func, mk)):
         hy = path.hyps + class_axioms()
+        # a reference created from the type itself is pinned to that type; one created from text is left to be evaluated
+        is_str = sub(cls_of(cur["ref"]), cls_const(str))
+        sets = {a: v for (o, a, v) in cur["sets"] if out.kind == "ret" and o is out.value}
+        pinned = (sets.get("__forward_evaluated__") is True and "__forward_value__" in sets
+                  and isinstance(sets["__forward_value__"], SV) and sets["__forward_value__"].t.eq(cur["ref"]))
+        chk.add(Ob(func, "a-reference-made-from-a-type-is-pinned-to-that-type", f"p{pi}", hy + [z3.Not(is_str)], z3.BoolVal(bool(pinned))))
+        chk.add(Ob(func, "a-reference-made-from-text-is-left-unevaluated", f"p{pi}", hy + [is_str], z3.BoolVal(not sets)))
         goal = sub(cls_of(to_val(out.value)), cls_const(typing.ForwardRef)) if out.kind == "ret" else z3.BoolVal(False)
         chk.add(Ob(func, "returns-a-typing.ForwardRef", f"p{pi}", hy, goal, {"outcome": out.kind}))
         if out.kind == "ret":
